@@ -37,8 +37,8 @@ instance (lx : TagLexeme) : Decidable (AttrsRawOK lx) := by
   split <;> infer_instance
 
 /-- the site used for "a tag lexeme with an attribute raw range outside the lexeme was handed to the sink";
-the state machine itself never fails there (it is a site of the dispatcher) -/
-def rawSite : String := "Tag should be a start tag at this point"
+the state machine itself never fails there (it is one of the dispatcher's own slice checks) -/
+def rawSite : String := "Bytes::slice out of range (tag name)"
 
 def T3 (s : String) : Prop := s = rawSite
 
